@@ -105,4 +105,3 @@ func c09UploadStep(anyCut bool) {
 		vAssertEqBytes("partial_file_is_exactly_the_prefix_received", vNSData[pi], wantPartial)
 	}
 }
-
